@@ -523,6 +523,9 @@ def r4_enums(ctx, schema: Schema, mi) -> None:
   if f_to is None or f_from is None:
     raise AnalysisError('trial status conversion functions not found')
   mentioned = {x.attr for x in ast.walk(f_to.node) if isinstance(x, ast.Attribute) and x.attr in st}
+  for nm in flow.names_in(f_to.node):
+    if nm in mi.assigns:
+      mentioned |= {x.attr for x in ast.walk(mi.assigns[nm]) if isinstance(x, ast.Attribute) and x.attr in st}
   missing = [s for s in st if s not in mentioned and s != 'STATE_UNSPECIFIED']
   ctx.check(not missing, 'R4', '_to_pyvizier_trial_status covers Trial.State', f_to.node,
             f'arms for {sorted(mentioned)}', f'no arm for {missing}: such trials become UNKNOWN', construct=str(missing), func=f_to.qualname)
@@ -532,13 +535,20 @@ def r4_enums(ctx, schema: Schema, mi) -> None:
   table = {}
   for m in st:
     r = enumeval.run_function(f_to.node.body, {par: m})
-    table[m] = (dotted(r) or '').rsplit('.', 1)[-1] if isinstance(r, ast.AST) else ('?' if r is enumeval.UNKNOWN else str(r))
+    if isinstance(r, ast.AST):
+      v = enumeval.value_of(r, {par: m}, mi.assigns)
+      table[m] = '?' if v is enumeval.UNKNOWN else str(v)
+    else:
+      table[m] = '?' if r is enumeval.UNKNOWN else str(r)
   want = {'SUCCEEDED': 'COMPLETED', 'INFEASIBLE': 'COMPLETED', 'REQUESTED': 'REQUESTED', 'ACTIVE': 'ACTIVE', 'STOPPING': 'STOPPING'}
   wrong = {m: table.get(m) for m, w_ in want.items() if m in st and table.get(m) != w_}
   ctx.check(not wrong, 'R4', 'SUCCEEDED and INFEASIBLE both map to COMPLETED', f_to.node,
             f'state -> status table {table}', f'proto states are mapped to the wrong status: {wrong} (expected {want})',
             construct='completed-map', func=f_to.qualname)
   produced = {x.attr for x in ast.walk(f_from.node) if isinstance(x, ast.Attribute) and x.attr in st}
+  for nm in flow.names_in(f_from.node):
+    if nm in mi.assigns:
+      produced |= {x.attr for x in ast.walk(mi.assigns[nm]) if isinstance(x, ast.Attribute) and x.attr in st}
   missing2 = [s for s in st if s not in produced]
   ctx.check(not missing2, 'R4', '_from_pyvizier_trial_status produces every Trial.State', f_from.node,
             f'produces {sorted(produced)}', f'never produces {missing2}', construct=str(missing2), func=f_from.qualname)
